@@ -1,11 +1,18 @@
 #!/usr/bin/env python3
 """records the sha256 of every source file of /repo that some property is anchored in (source_pins.json): the state
 of the code the models were last validated against.  Run after /repo's HEAD changed and all checks are green."""
-import hashlib, json, os
+import hashlib, json, os, sys
+if sys.executable != "/venv/bin/python" and os.path.exists("/venv/bin/python"):
+    os.execv("/venv/bin/python", ["/venv/bin/python"] + sys.argv)      # the interpreter the checks run under
 VERIF = os.path.dirname(os.path.dirname(os.path.abspath(__file__)))
 files = set()
 for line in open(os.path.join(VERIF, "properties.jsonl")):
     files |= set(json.loads(line).get("anchors", {}).get("files", []))
 pins = {f: hashlib.sha256(open(os.path.join("/repo", f), "rb").read()).hexdigest() for f in sorted(files) if os.path.exists(os.path.join("/repo", f))}
 json.dump(pins, open(os.path.join(VERIF, "source_pins.json"), "w"), indent=1)
-print(len(pins), "files pinned")
+import sys
+sys.path.insert(0, os.path.join(VERIF, "harness"))
+import astpins
+fp = {f: astpins.fingerprints(os.path.join("/repo", f)) for f in pins if f.endswith(".py")}
+json.dump(fp, open(os.path.join(VERIF, "source_pins_functions.json"), "w"), indent=1, sort_keys=True)
+print(len(pins), "files pinned;", sum(len(v or {}) for v in fp.values()), "function fingerprints")
